@@ -60,6 +60,15 @@ func (sfc *StructFieldsCopy) createFieldSnippet(f *types.Var) snippet.Snippet {
 
 	switch x := fieldType.(type) {
 	case *types.Named:
+		// named interfaces (the predeclared error has no package) have no deep copy methods
+		if _, ok := x.Underlying().(*types.Interface); ok {
+			return snippet.T(`
+out.@fieldName = in.@fieldName
+`, snippet.Args{
+				"fieldName": snippet.ID(f.Name()),
+			})
+		}
+
 		var fc *FieldContext
 
 		if sfc.FieldContext != nil {
